@@ -24,7 +24,7 @@ func init() {
 	RegisterSub("C18", "aad", RunC18Aad)
 }
 
-const c18Rule = "catalogue struct types x gen.FillRows rows x random writer configuration (page version, codec, page buffer from 1 byte, rows per row group from 1, dictionary limit, statistics) x {encrypted footer, plaintext signed footer} x {footer key only, key per column, keys for some columns} x AES-128/192/256 x AAD prefix x writer path (GenericWriter batches+Flush, Writer.Write, WriteRowGroup of a buffer, WriteRows, Writer.Reset reuse, BeginRowGroup/Commit) x bloom filters; read with all keys (typed, pages, rows, seek histories, bloom filter, page index) and with some column keys missing; every sealed module opened with crypto/aes+GCM under the Lean model's AAD; exact writer histories (pages cut only by ColumnWriter.Flush, Flush, Commit, Close; 1-3 files per writer through Reset; row groups of BeginRowGroup kept across Reset) whose every module is opened under the type, ordinals and file-identifier generation the Lean writer state machine predicts; marker scan of the raw bytes; fault enumeration (byte flips, truncation, module swaps, cross-file transplant, wrong key, wrong AAD prefix); non-trivial = a file with at least 2 row groups or 2 pages in a chunk, and a column key distinct from the footer key"
+const c18Rule = "catalogue struct types x gen.FillRows rows x random writer configuration (page version, codec, page buffer from 1 byte, rows per row group from 1, dictionary limit, statistics) x {encrypted footer, plaintext signed footer} x {footer key only, key per column, keys for some columns} x AES-128/192/256 x AAD prefix x writer path (GenericWriter batches+Flush, Writer.Write, WriteRowGroup of a buffer, WriteRows, Writer.Reset reuse, BeginRowGroup/Commit) x bloom filters; read with all keys (typed, pages, rows, seek histories, bloom filter, page index) and with some column keys missing; every sealed module opened with crypto/aes+GCM under the Lean model's AAD; exact writer histories (pages cut only by ColumnWriter.Flush, Flush, Commit, Close; 1-3 files per writer through Reset; row groups of BeginRowGroup kept across Reset) whose every module is opened under the type, ordinals and file-identifier generation the Lean writer state machine predicts; every way of handing the options to a writer or to OpenFile (functional options, configuration structs with and without the Encryption/Decryption field before and after, NewWriterConfig/NewFileConfig results passed on, through NewGenericWriter, NewWriter, Write and NewSortingWriter) against the documented rule and the Lean mirror of the merge; exact histories of ReadPage/SeekToRow/ReadDictionary on the page reader of one chunk (offset index loaded or not, dictionary pages and PLAIN fallback pages) intact and with one module damaged, against the Lean mirror of the page reader; histories of OpenFile (with and without SkipPageIndex), ColumnIndex(), OffsetIndex() and BloomFilter() calls (chunks with and without column index and bloom filter) intact and with one module damaged, against the Lean mirror that goes through the call-site table; marker scan of the raw bytes; fault enumeration (byte flips, truncation, module swaps, cross-file transplant, wrong key, wrong AAD prefix); non-trivial = a file with at least 2 row groups or 2 pages in a chunk, and a column key distinct from the footer key"
 
 // c18File is one written file with everything needed to read it back and to replay it.
 type c18File struct {
@@ -43,15 +43,18 @@ type c18File struct {
 	Steps    []c18Step     // interleaved: the history
 	Src      reflect.Value // interleaved: the rows in the order they are handed to the writers (Rows is in file order)
 	Plain    []byte        // the same rows and configuration written without encryption (baseline)
+	Form     *c18Form      // how options and encryption setting are handed to the writer (c18_options.go)
+	encCfg   *parquet.EncryptionConfig
 }
 
 func (c *c18File) desc() string {
-	return fmt.Sprintf("%s|%s|%s|path=%s|batches=%v|blooms=%v|deferred=%v|steps=%v", c.E.Name, c.Cfg.Desc, c.Enc.Desc(), c.Path, c.Batches, c.Blooms, c.Deferred, c.Steps)
+	return fmt.Sprintf("%s|%s|%s|path=%s|batches=%v|blooms=%v|deferred=%v|steps=%v|form=%v", c.E.Name, c.Cfg.Desc, c.Enc.Desc(), c.Path, c.Batches, c.Blooms, c.Deferred, c.Steps, c.Form)
 }
 
 func (c *c18File) detail(extra map[string]any) map[string]any {
 	m := map[string]any{"type": c.E.Name, "config": c.Cfg.Desc, "encryption": c.Enc.Desc(), "writer_path": c.Path,
-		"batches": c.Batches, "bloom_filters": c.Blooms, "deferred_bloom": c.Deferred, "rows": c.Texts, "history": fmt.Sprint(c.Steps)}
+		"batches": c.Batches, "bloom_filters": c.Blooms, "deferred_bloom": c.Deferred, "rows": c.Texts, "history": fmt.Sprint(c.Steps),
+		"option_form": c.Form.String() + " (options[:k] as functional options or folded into a &WriterConfig{} literal, the encryption setting as WithEncryption or as the Encryption field, options[k:] likewise or as the result of NewWriterConfig; fold-all: NewWriterConfig(everything) is the only option)"}
 	if len(c.Texts) > 30 {
 		m["rows"] = append(append([]string{}, c.Texts[:30]...), fmt.Sprintf("... %d rows, regenerate with the run seed", len(c.Texts)))
 	}
@@ -247,8 +250,9 @@ func c18WriteWith(c *c18File, opts []parquet.WriterOption, r *rand.Rand) (out []
 
 func (c *c18File) opts(encrypted bool) []parquet.WriterOption {
 	opts := append([]parquet.WriterOption{}, c.Cfg.Opts...)
+	var tail []parquet.WriterOption
 	if c.Path == "begin-rowgroup" || c.Path == "interleaved" {
-		opts = append(opts, parquet.MaxRowsPerRowGroup(0)) // a BeginRowGroup writer refuses more rows than the limit
+		tail = append(tail, parquet.MaxRowsPerRowGroup(0)) // a BeginRowGroup writer refuses more rows than the limit
 	}
 	if len(c.Blooms) > 0 {
 		var fs []parquet.BloomFilterColumn
@@ -260,10 +264,14 @@ func (c *c18File) opts(encrypted bool) []parquet.WriterOption {
 			opts = append(opts, parquet.DeferBloomFiltersWithBuffers(parquet.NewBufferPool()))
 		}
 	}
+	var enc *parquet.EncryptionConfig
 	if encrypted {
-		opts = append(opts, parquet.WithEncryption(c.Enc.Config()))
+		if c.encCfg == nil {
+			c.encCfg = c.Enc.Config()
+		}
+		enc = c.encCfg
 	}
-	return opts
+	return c.Form.build(opts, enc, tail)
 }
 
 // c18NewFile draws a case and writes the encrypted file and its unencrypted twin.
@@ -305,6 +313,7 @@ func c18NewFile(r *rand.Rand, e *gen.Entry, path string) (*c18File, error, error
 		}
 	}
 	c.Deferred = len(c.Blooms) > 0 && r.Intn(4) == 0
+	c.Form = c18RandForm(r, len(c.Cfg.Opts)+min(len(c.Blooms), 1)+map[bool]int{true: 1}[c.Deferred])
 	var sh gen.Shredder
 	for i := 0; i < n; i++ {
 		c.Texts = append(c.Texts, sh.ShredRow(e.Schema, rows.Index(i)))
@@ -570,6 +579,12 @@ func c18RoundtripCase(ctx *core.Ctx, r *rand.Rand, e *gen.Entry, path string, sa
 		}
 	}
 	batch := []int{1, 2, 7, 64, 1000}[r.Intn(5)]
+	ctx.Hist("option_form", fmt.Sprintf("before=%s enc=%s after=%s", c.Form.Before, c.Form.Enc, c.Form.After))
+	// 0a. whatever the spelling of the options, encryption was asked for
+	if c18LooksUnencrypted(c.Data) {
+		fail("encryption-request-ignored "+c18CarrierClass(c.opts(true), c.encCfg), "the options ask for encryption (form "+c.Form.String()+") and the writer produced an ordinary unencrypted parquet file, without any error", nil)
+		return
+	}
 	// 0. the independent walker (stdlib AES-GCM, harness AAD) must open every module and the modules must tile the file
 	if layErr != nil {
 		lib := "not tried"
